@@ -840,7 +840,7 @@ pub fn drive(tier: &str) -> i32 {
     run.crash_is_violation = true;
     let mut pool = Pool::new("C12");
     pool.timeout_ms = 120_000;
-    let nops = if quick { 12 } else { OPERANDS.len() };
+    let nops = if quick { 10 } else { OPERANDS.len() };
     let nexpr = Gen { nops }.exprs().len();
     let mut cases = vec![];
     let total = (nexpr * CONTEXTS.len()) as u64;
@@ -876,7 +876,7 @@ pub fn drive(tier: &str) -> i32 {
         progs.push(vcore::gprint::print_default(&vcore::gen01::control_program(f, false)).text);
     }
     groups.push(super::run_text_group(&mut run, &pool, "generated control programs: renaming, single edits", &progs, 20, &extra));
-    groups.push(super::run_text_group(&mut run, &pool, "statement templates inside 8 containers (SUB / FUNCTION / STATIC SUB bodies, single-line IF, IF in FOR, CASE, ELSE in WHILE, SUB with shared declarations): soundness, renaming", &vcore::slots::instantiate_in_containers(if quick { &[0] } else { &[0, 1, 3, 5] }), 40, &extra));
+    groups.push(super::run_text_group(&mut run, &pool, "statement templates inside 8 containers (SUB / FUNCTION / STATIC SUB bodies, single-line IF, IF in FOR, CASE, ELSE in WHILE, SUB with shared declarations): soundness, renaming", &vcore::slots::instantiate_in_containers(if quick { &[] } else { &[0] }), 40, &extra));
     groups.push(super::run_text_group(&mut run, &pool, "programs whose verdict depends on the default type of a bare name (5 DEFtype kinds x 3 ranges x first / middle / last letter)", &deftype_sensitive_programs(), 5, &extra));
     let mut stmts: Vec<String> = vcore::slots::instantiate(if quick { 1 } else { 2 }).into_iter().map(|(_, s)| vcore::slots::program(&s)).collect();
     if quick {
